@@ -141,6 +141,11 @@ def classify(job, loops_expected=()):
     """turn raw results into ok / failed / undecided, checking canaries and loop-contract presence."""
     if job.status != "done":
         return
+    # MUSTFAIL obligations: an existential claim proved by refuting its universal negation; the verdict is inverted
+    for r in job.results:
+        if r["desc"].startswith("MUSTFAIL") and not r.get("inverted"):
+            r["inverted"] = True
+            r["status"] = {"FAILURE": "SUCCESS", "SUCCESS": "FAILURE"}.get(r["status"], r["status"])
     canaries = [r for r in job.results if r["desc"].startswith("CANARY")]
     others = [r for r in job.results if not r["desc"].startswith("CANARY")]
     job.canaries = canaries
